@@ -31,6 +31,11 @@ func genC14(g *gen, tier string) *Scenario {
 	sc.Sim.Drift = pick(g, 1, 2, 3)
 	faults := pick(g, "none", "none", "slow", "errors")
 	sc.Family = fmt.Sprintf("%s,prob=%v,faults=%s", kind, sc.Cache.Prob, faults)
+	if g.pct(25) {
+		sc.Cache.Pool = true
+		sc.Sim.PoolReuse = pick(g, 50, 90, 100)
+		sc.Family += ",pool"
+	}
 	switch faults {
 	case "slow":
 		sc.Stubs.SecSlowPct = pick(g, 20, 60)
@@ -361,6 +366,10 @@ func genC15(g *gen, tier string) *Scenario {
 	sc.Cache.Prob = 1
 	sc.Cache.Workers = g.rng(1, 3)
 	sc.Sim.Drift = pick(g, 0, 1, 2)
+	if g.pct(25) {
+		sc.Cache.Pool = true
+		sc.Sim.PoolReuse = pick(g, 50, 90, 100)
+	}
 	failing := g.pct(35)
 	sc.Family = kind + ",secondary-ok"
 	if failing {
